@@ -9,7 +9,7 @@ import z3
 from vf.pyvc.engine import Atom, B, Opaque, Coll, Contract, NONE, Obj, OpaqueFn, Scalar, empty_set, fresh, register, set_sort
 from vf.pyvc.lib import N_, new_graph, wf_graph
 
-from .common import atom, graph_snapshot, graph_unchanged
+from .common import atom, graph_snapshot, graph_unchanged, havoc_graph
 
 
 def new_bn(tag="m"):
@@ -20,6 +20,7 @@ def new_bn(tag="m"):
 class BNAddEdge(Contract):
     file = "pgmpy/models/BayesianNetwork.py"
     qual = "BayesianNetwork.add_edge"
+    raises_leave_state = True   # on_raise below is exactly "nothing changed" (proved): callers keep the same state terms on that path
 
     def variants(self, ex):
         g = new_bn()
@@ -29,6 +30,9 @@ class BNAddEdge(Contract):
         g = args["self"]
         th = ex.lib.theory(ex)
         return z3.And(wf_graph(g), th.acyclic(g.fields["@E"]))
+
+    def havoc(self, ex, st, args):
+        havoc_graph(args["self"], "ae")
 
     def snapshot(self, ex, st, args):
         return graph_snapshot(args["self"])
@@ -88,6 +92,10 @@ class DAGDo(Contract):
 
     def pre(self, ex, st, args):
         return wf_graph(args["self"])
+
+    def havoc(self, ex, st, args):
+        if z3.is_true(args["inplace"].z):
+            havoc_graph(args["self"], "do")
 
     def snapshot(self, ex, st, args):
         return graph_snapshot(args["self"])
@@ -222,6 +230,9 @@ class MNAddEdge(Contract):
         a = fresh("a", Atom)
         return z3.And(wf_graph(g), z3.ForAll([a], z3.Not(g.fields["@E"][a, a])))
 
+    def havoc(self, ex, st, args):
+        havoc_graph(args["self"], "mn", latents=False)
+
     def snapshot(self, ex, st, args):
         return graph_snapshot(args["self"])
 
@@ -244,6 +255,7 @@ register(MNAddEdge())
 
 
 class BNCopy(Contract):
+    pure = True   # does not modify any pre-existing object
     """structure part of BayesianNetwork.copy: a fresh object with the same nodes, edges and latent set, whose latent
     set is a different object than the original's (separation); CPD copies are opaque here (bounded: copy_separation)."""
     file = "pgmpy/models/BayesianNetwork.py"
@@ -312,6 +324,9 @@ class DBNAddEdge(Contract):
 
     def pre(self, ex, st, args):
         return dbn_inv(ex, args["self"])
+
+    def havoc(self, ex, st, args):
+        havoc_graph(args["self"], "dbn")
 
     def snapshot(self, ex, st, args):
         return graph_snapshot(args["self"])
@@ -424,6 +439,9 @@ class DAGAddEdgesFrom(Contract):
             if isinstance(c, Coll) and c.len_z is not None and c.mem is not None:
                 parts += [c.len_z >= 0, (c.len_z == 0) == z3.Not(nonempty(c.mem, c.esort))]
         return z3.And(*parts)
+
+    def havoc(self, ex, st, args):
+        havoc_graph(args["self"], "aef")
 
     def snapshot(self, ex, st, args):
         return graph_snapshot(args["self"])
